@@ -100,3 +100,63 @@ Definition parse (g : grammar) (T : table) (partial : bool) (fuel : nat) (w : li
 
 Definition parses (g : grammar) (T : table) (partial : bool) (w : list nat) (t : tree) (c : nat) : Prop :=
   exists fuel, parse g T partial fuel w = Ok t c.
+
+(* ---- the same loop with an ARBITRARY lexer (C15: user-supplied lexers that may
+   return token kinds the current state does not expect). The lexer is any
+   function of the whole configuration; [real] says whether the token consumes
+   input. With no action for the lookahead the loop returns the error result
+   "Can't continue in state ..." (ErrNoAction). ---------------------------- *)
+Definition step_lex (g : grammar) (T : table) (lex : conf -> tok) (c : conf) : sres :=
+  match c_stk c with
+  | [] => Done (Panic P_EMPTY_STACK)
+  | s :: _ =>
+      match lex c with
+      | NoTok => Done (Err (c_pos c) (expected T s))
+      | Tok a real =>
+          match cell T s a with
+          | [] => Done ErrNoAction
+          | Shift s' :: _ =>
+              Next (mkConf (s' :: c_stk c) (Leaf a :: c_trs c)
+                           (if real then tl (c_inp c) else c_inp c)
+                           (if real then S (c_pos c) else c_pos c))
+          | Reduce p len :: _ =>
+              if length (c_stk c) <=? len then Done (Panic P_POP)
+              else
+                let stk' := skipn len (c_stk c) in
+                match stk' with
+                | [] => Done (Panic P_POP)
+                | from :: _ =>
+                    match goto T from (lhs g p - g_nterm g) with
+                    | None => Done (Panic P_GOTO)
+                    | Some s' =>
+                        if length (c_trs c) <? len then Done (Panic P_BUILDER)
+                        else Next (mkConf (s' :: stk')
+                                          (Node p (rev (firstn len (c_trs c))) :: skipn len (c_trs c))
+                                          (c_inp c) (c_pos c))
+                    end
+                end
+          | Accept :: _ =>
+              match c_trs c with
+              | t :: _ => Done (Ok t (c_pos c))
+              | [] => Done (Panic P_RESULT)
+              end
+          end
+      end
+  end.
+
+Fixpoint run_lex (g : grammar) (T : table) (lex : conf -> tok) (fuel : nat) (c : conf) : outcome :=
+  match fuel with
+  | 0 => OutOfFuel
+  | S fuel' =>
+      match step_lex g T lex c with
+      | Done o => o
+      | Next c' => run_lex g T lex fuel' c'
+      end
+  end.
+
+(* the default lexer as an instance *)
+Definition default_lex (T : table) (partial : bool) (c : conf) : tok :=
+  match c_stk c with
+  | [] => NoTok
+  | s :: _ => next_tok T partial s (c_inp c)
+  end.
